@@ -128,7 +128,15 @@ fn gen_scenario(seed: u64, focus: &str) -> Scenario {
     let readers = (0..nreaders)
         .map(|_| ReaderProg { start_after_p: if rng.chance(1, 2) { 0 } else { p0 + rng.below(total_pubs + 1) }, calls: 1 + rng.below(if focus == "C03" { 14 } else { 8 }) as u32 })
         .collect();
-    Scenario { seed, start, writer, stops, readers, writer_den: pick_den(&mut rng), reader_den: pick_den(&mut rng) }
+    // A writer that stalls in the middle of an update for a long time (and then carries on).
+    let mut pauses = Vec::new();
+    if matches!(focus, "C02" | "C03") && rng.chance(1, 40) {
+        let pubs: Vec<usize> = writer.iter().enumerate().filter(|(_, o)| **o == WOp::Publish).map(|(i, _)| i).collect();
+        if !pubs.is_empty() {
+            pauses.push((*rng.pick(&pubs), 2 + rng.below(10), 2 + rng.below(3)));
+        }
+    }
+    Scenario { seed, start, writer, stops, pauses, readers, writer_den: pick_den(&mut rng), reader_den: pick_den(&mut rng) }
 }
 
 #[derive(Default)]
@@ -309,7 +317,7 @@ fn mode_stopenum(args: &std::collections::HashMap<String, String>) -> Value {
     let mut job = 0u64;
     for (si, start) in enum_starts().iter().enumerate() {
         // Discover the writer's points for this start state: a dry run, no readers, no stops.
-        let probe = Scenario { seed: 0, start: start.clone(), writer: enum_program(), stops: vec![], readers: vec![], writer_den: 0, reader_den: 0 };
+        let probe = Scenario { seed: 0, start: start.clone(), writer: enum_program(), stops: vec![], pauses: vec![], readers: vec![], writer_den: 0, reader_den: 0 };
         let dry = run_scenario(&probe, &dir, true, false);
         let mut per_op: BTreeMap<usize, u64> = BTreeMap::new();
         for (op, k, _site) in dry.writer_sites.iter() {
@@ -340,6 +348,7 @@ fn mode_stopenum(args: &std::collections::HashMap<String, String>) -> Value {
                         start: start.clone(),
                         writer: if stops.len() == 2 { let mut w = enum_program(); w.extend([WOp::New, WOp::Publish]); w } else { enum_program() },
                         stops,
+                        pauses: vec![],
                         readers: (0..nreaders).map(|_| ReaderProg { start_after_p: if rng.chance(2, 3) { 0 } else { p0 + rng.below(3) }, calls: 2 + rng.below(8) as u32 }).collect(),
                         writer_den: pick_den(&mut rng),
                         reader_den: pick_den(&mut rng),
